@@ -37,7 +37,7 @@ CFG = dict(
 )
 
 def classify(line):
-    for t in line.get("tags", []):
+    for t in line.get("tags") or []:
         if t.startswith("finding:"):
             return t[len("finding:"):]
     return None
